@@ -34,6 +34,9 @@ func routingItems(harness string, stages func(tbl int) []int) func(tier string, 
 					continue
 				}
 				for _, st := range stages(tbl) {
+					if tier == "thorough" && st != 3 {
+						st += 10 // thorough bounds: path 20 bytes, 5 segments
+					}
 					out = append(out, item{Harness: harness, Cfg: []int{tbl, router, st}})
 				}
 			}
@@ -80,7 +83,8 @@ func properties() map[string]*propDef {
 		Rule:           "core route tables x {CurlyRouter, RouterJSR311} x stage (0: path+method symbolic, headers absent; 1: one concrete URL per route, method/Content-Type/Accept/Content-Length symbolic); each dispatch repeated with trace logging on",
 		RequiredCovers: []string{"invoked", "404", "405", "415", "406", "definite", "indefinite"},
 	}
-	routingBounds := map[string]interface{}{"path_bytes": 12, "segments": 3, "method_bytes": 7, "tables": nCoreTables}
+	routingBounds := map[string]interface{}{"path_bytes": "12 (thorough, core tables: 20)", "segments": "3 (thorough, core tables: 5)", "method_bytes": 7, "core_tables": nCoreTables,
+		"generated_tables": "pairs of templates over {a, b, {v}, {v:[0-9]+}, {v:[0-9]*}, ab{v}ba, {v}.x, p{v}, a:go, {v}:go, {v:*}} with 1-2 segments on service /t, same or different methods: 24 by seed in quick, all 2244 in thorough"}
 	m["C04"] = &propDef{
 		ID: "C04",
 		Items: func(tier string, seed int) []item {
@@ -106,7 +110,11 @@ func properties() map[string]*propDef {
 					if router == 1 && (curlyOnly(tbl) || tbl == 5) {
 						continue // RouterJSR311: templates without tail wildcard only
 					}
-					out = append(out, item{Harness: "H_C14", Cfg: []int{tbl, router, 0}})
+					st := 0
+					if tier == "thorough" {
+						st = 10
+					}
+					out = append(out, item{Harness: "H_C14", Cfg: []int{tbl, router, st}})
 				}
 			}
 			for _, g := range generatedFor(tier, seed, 24, func(g genInfo) bool { return true }) {
@@ -129,7 +137,11 @@ func properties() map[string]*propDef {
 		Items: func(tier string, seed int) []item {
 			var out []item
 			for _, tbl := range []int{0, 1, 7, 8, 9, 10, 15, 16, 19, 21, 24, 25, 26, 27} {
-				out = append(out, item{Harness: "H_C18", Cfg: []int{tbl, 0}})
+				st18 := 0
+				if tier == "thorough" {
+					st18 = 10
+				}
+				out = append(out, item{Harness: "H_C18", Cfg: []int{tbl, st18}})
 				if hasMedia(tbl) {
 					out = append(out, item{Harness: "H_C18", Cfg: []int{tbl, 1}})
 				}
@@ -164,6 +176,9 @@ func properties() map[string]*propDef {
 						}
 					}
 					for _, p := range perms {
+						if tier == "thorough" {
+							p += 100 // thorough bounds
+						}
 						out = append(out, item{Harness: "H_C03", Cfg: []int{tbl, router, p}})
 					}
 				}
@@ -189,7 +204,11 @@ func properties() map[string]*propDef {
 			var out []item
 			for _, tbl := range []int{0, 1, 7, 10, 16, 19, 21, 24, 25, 26} {
 				for router := 0; router < 2; router++ {
-					out = append(out, item{Harness: "H_C17", Cfg: []int{tbl, router}})
+					r := router
+					if tier == "thorough" {
+						r += 10 // thorough bounds
+					}
+					out = append(out, item{Harness: "H_C17", Cfg: []int{tbl, r}})
 				}
 			}
 			return out
@@ -205,10 +224,11 @@ func properties() map[string]*propDef {
 			var out []item
 			for cfg := 0; cfg < 6; cfg++ {
 				out = append(out, item{Harness: "H_C08", Cfg: []int{cfg}, Label: "allowed domains = cfg%3 symbolic entries; predicate configured iff cfg>=3"})
+				out = append(out, item{Harness: "H_C08", Cfg: []int{100 + cfg}, Label: "the same with Origin, entries and predicate string of <= 11 bytes"})
 			}
 			return out
 		},
-		Bounds: map[string]interface{}{"origin_bytes": 6, "allowed_domain_entries": "0..2 symbolic strings of <= 6 bytes", "predicate": "nil or equality with a symbolic string of <= 6 bytes",
+		Bounds: map[string]interface{}{"origin_bytes": "6 and 11", "allowed_domain_entries": "0..2 symbolic strings of <= 6 / <= 11 bytes", "predicate": "nil or equality with a symbolic string of <= 6 / <= 11 bytes",
 			"method_bytes": 7, "access_control_request_method_bytes": 4},
 		Assumptions:    append([]string{"AllowedDomainFunc ranges over the predicates 'equals s' for a symbolic string s (uninterpreted predicates are not expressible in QF_BV)"}, commonAssumptions...),
 		Rule:           "CORS filter as container filter in front of a marker filter and a 3-route service, plus a filter-less twin; Origin, allowed-domain entries, predicate string, cookies flag, method and requested method symbolic",
@@ -220,6 +240,9 @@ func properties() map[string]*propDef {
 			var out []item
 			for cfg := 0; cfg < 4; cfg++ {
 				out = append(out, item{Harness: "H_C09", Cfg: []int{cfg}, Label: "cfg%2==0: AllowedMethods configured [GET,PUT], else computed from the container; cfg>=2: header wildcard configured"})
+				if tier == "thorough" {
+					out = append(out, item{Harness: "H_C09", Cfg: []int{100 + cfg}, Label: "the same with <= 3 requested headers in <= 13 bytes and an allowed-header entry of <= 6 bytes"})
+				}
 			}
 			return out
 		},
@@ -403,7 +426,11 @@ func properties() map[string]*propDef {
 					if router == 1 && curlyOnly(tbl) {
 						continue
 					}
-					out = append(out, item{Harness: "H_C19_route", Cfg: []int{tbl, router}, Label: "core table, router"})
+					r := router
+					if tier == "thorough" {
+						r += 10 // thorough bounds
+					}
+					out = append(out, item{Harness: "H_C19_route", Cfg: []int{tbl, r}, Label: "core table, router (+10: thorough bounds)"})
 				}
 			}
 			for cfg := 0; cfg < 4; cfg++ {
